@@ -29,7 +29,7 @@ ASSUMPTIONS = [
 ]
 BUDGET = {
     "quick": {"examples": 500, "wall_s": 90, "shards": 4},
-    "thorough": {"examples": 6000, "wall_s": 900, "shards": 16},
+    "thorough": {"examples": 15000, "wall_s": 1500, "shards": 16},
 }
 
 ISHAPES = (0, 2, 4, 7)
@@ -83,7 +83,7 @@ def _cli_strategy(tier):
 
 # the same generated DAGs on a real directory tree through `gwf status` / `gwf run`; here the mtime ladder
 # starts at the Unix epoch (tick 1 = mtime 0.0), a legal if unusual timestamp
-EXTRA_STRATEGIES = [{"name": "cli", "strategy": _cli_strategy, "examples": {"quick": 400, "thorough": 8000}, "wall_s": 200}]
+EXTRA_STRATEGIES = [{"name": "cli", "strategy": _cli_strategy, "examples": {"quick": 400, "thorough": 24000}, "wall_s": 200}]
 
 
 def run_cli(case):
